@@ -487,6 +487,12 @@ def mpi_rules(ctx):
                 ctx.ob("MPI-2", f"{q}: Gather #{k} and Scatter #{k} use root buffers of the same extent",
                        gb is not None and sb is not None and _same_alloc(gb, sb),
                        f"{show(gb, maxdepth=2)[:70]} vs {show(sb, maxdepth=2)[:70]}", fi, eg.line)
+                dg, ds_ = (_alloc_dtype(gb) if gb is not None else None), (_alloc_dtype(sb) if sb is not None else None)
+                if dg is not None and ds_ is not None:
+                    # the receive buffer of the Scatter side is filled from the gathered one: a buffer allocated without
+                    # the walkers' dtype (numpy's default float64) silently drops the imaginary part of what is copied in
+                    ctx.ob("MPI-2", f"{q}: Gather #{k} and Scatter #{k} use root buffers of the same dtype", dg == ds_,
+                           f"gathered into dtype {dg}, scattered from dtype {ds_}", fi, es.line)
             # the comb itself runs on the root only
             ss_paths = [e.path for e in ev.events if e.kind == "call" and array_fn(e.data) == "searchsorted"]
             on_root = bool(ss_paths) and all(any(_rank_dependent(c) and pol for c, pol in path)
@@ -495,6 +501,31 @@ def mpi_rules(ctx):
                    "searchsorted under `if rank == 0`", fi)
     if n_coll < 10:
         raise AnalysisError(f"only {n_coll} collectives seen")
+
+
+def _alloc_dtype(t: T) -> Optional[str]:
+    """dtype expression of the allocation reaching t through phis / stores ('default' when none is given); None when the
+    allocation is not recognised"""
+    t = strip_wrappers(t)
+    for _ in range(16):
+        if t.op == "phi":
+            a, b = strip_wrappers(t.args[1]), strip_wrappers(t.args[2])
+            t = a if not is_const(a, None) else b
+        elif t.op in ("loopout", "havoc"):
+            t = strip_wrappers(t.args[2])
+        elif t.op == "setitem":
+            t = strip_wrappers(t.args[0])
+        else:
+            break
+    mm = m_method(t, "astype")
+    if mm is not None and mm[1]:
+        return show(mm[1][0], maxdepth=3)
+    if t.op == "call" and array_fn(t) in ("zeros", "ones", "empty"):
+        kw = call_parts(t)[2]
+        pos = call_parts(t)[1]
+        d = kw.get("dtype", pos[1] if len(pos) > 1 else None)
+        return show(d, maxdepth=3) if d is not None else "default"
+    return None
 
 
 def _alloc_shape(t: T) -> Optional[str]:
